@@ -8,6 +8,7 @@
 -/
 import Gzx.Proofs.Row39Code93
 import Gzx.Proofs.Row39Code39
+import Gzx.Proofs.Row39Codabar
 import Gzx.Properties.C03
 namespace Gzx.Properties.C03Row39
 open Gzx Gzx.OneD Gzx.Row39
@@ -221,5 +222,93 @@ example : (code39Modules refTables [65]).map (fun m => c39DecodeRow refTables fa
     .ok (.ok ⟨[65], 12, 64⟩) := by decide +kernel
 example : (code39Modules refTables [97]).map (fun m => c39DecodeRow refTables false true (paddedRow 3 2 5 m)) =
     .ok (.ok ⟨[97], 30, 186⟩) := by decide +kernel
+
+/-! ## Codabar -/
+
+/-- Clause "Codabar: ≥ 2 data characters with every start/stop pair … is read by the matching reader as exactly that
+    content", on the pixel-level row decoder: for EVERY table set satisfying the decidable `WFCbRow` (twenty distinct
+    7-bit words, none with four wide bars or three wide spaces, over the standard alphabet), every content the writer
+    model accepts (`codabarFull contents = ok full`: guards A-D / T N * E / lower case as supplied, or A…A added) with
+    at least two data characters, every scale `1 ≤ s ≤ 2^31-1` and at least ONE white pixel on either side
+    (`setCounters` starts at the first white pixel; `toNarrowWidePattern` needs a counter after the last bar),
+    `setCounters`, `findStartPattern`, the character loop (`toNarrowWidePattern` with its per-parity thresholds),
+    the trailing-white test, `validatePattern` (thresholds by exact arithmetic: all stripes are exact multiples),
+    the start/stop and length rules return exactly the data characters between the guards, with result points at
+    the left edge of the start character and the right edge of the stop character.
+    The reader refuses symbols with fewer than two data characters (`codabar_row_short_refused`). -/
+theorem codabar_row_read_write (T : Tables) (hT : WFCbRow T = true) (contents full : List Nat)
+    (h : codabarFull contents = .ok full) (hlen : full.length > 3)
+    (lq s rq : Nat) (hs : 0 < s) (hs31 : s ≤ 2147483647) (hlq : 0 < lq) (hrq : 0 < rq) :
+    ∃ mods, codabarModules T contents = .ok mods ∧
+      cbDecodeRow T false (paddedRow lq s rq mods) =
+        .ok ⟨(full.drop 1).dropLast, 2 * lq, 2 * (lq + s * mods.length)⟩ := by
+  have f := cbFacts T hT
+  obtain ⟨g, mid, l, rfl, hg, hl, hmid⟩ := codabarFull_spec contents full h
+  refine ⟨_, codabarModules_chars T f contents g l mid h hg hl hmid, ?_⟩
+  have hcore := cbDecodeRow_core T f s hs hs31 (codabarGuardMap (toUpperByte g)) (codabarGuardMap (toUpperByte l)) mid
+    (guard_mem _ hg) (guard_mem _ hl) hg hl
+    (fun c hc => ⟨(mid_mem c (hmid c hc)).2, midOk_not_startEnd c (hmid c hc)⟩) false lq rq hlq hrq
+  simp only [] at hcore
+  rw [hcore]
+  have hm : ¬ mid.length ≤ 1 := by simp at hlen; omega
+  rw [if_neg hm]
+  simp
+
+/-- with the hint RETURN_CODABAR_START_END the text includes the (upper-cased, A-D) guards -/
+theorem codabar_row_read_write_with_guards (T : Tables) (hT : WFCbRow T = true) (contents : List Nat)
+    (g l : Nat) (mid : List Nat) (h : codabarFull contents = .ok (g :: (mid ++ [l]))) (hlen : mid.length > 1)
+    (lq s rq : Nat) (hs : 0 < s) (hs31 : s ≤ 2147483647) (hlq : 0 < lq) (hrq : 0 < rq) :
+    ∃ mods, codabarModules T contents = .ok mods ∧
+      cbDecodeRow T true (paddedRow lq s rq mods) =
+        .ok ⟨codabarGuardMap (toUpperByte g) :: (mid ++ [codabarGuardMap (toUpperByte l)]), 2 * lq,
+             2 * (lq + s * mods.length)⟩ := by
+  have f := cbFacts T hT
+  obtain ⟨g', mid', l', he, hg, hl, hmid⟩ := codabarFull_spec contents _ h
+  have e1 : g' = g := by injection he with a _; exact a.symm
+  have e2 : mid' ++ [l'] = mid ++ [l] := by injection he with _ b; exact b.symm
+  have e3 : mid' = mid ∧ l' = l := by
+    have := List.append_inj' e2 rfl
+    exact ⟨this.1, by simpa using this.2⟩
+  obtain ⟨rfl, rfl⟩ := e3
+  subst e1
+  refine ⟨_, codabarModules_chars T f contents g' l' mid' h hg hl hmid, ?_⟩
+  have hcore := cbDecodeRow_core T f s hs hs31 (codabarGuardMap (toUpperByte g')) (codabarGuardMap (toUpperByte l')) mid'
+    (guard_mem _ hg) (guard_mem _ hl) hg hl
+    (fun c hc => ⟨(mid_mem c (hmid c hc)).2, midOk_not_startEnd c (hmid c hc)⟩) true lq rq hlq hrq
+  simp only [] at hcore
+  rw [hcore, if_neg (by omega)]
+  simp
+
+/-- fewer than two data characters: written, but refused by the reader's `MIN_CHARACTER_LENGTH` rule — also at row level -/
+theorem codabar_row_short_refused (T : Tables) (hT : WFCbRow T = true) (contents : List Nat)
+    (g l : Nat) (mid : List Nat) (h : codabarFull contents = .ok (g :: (mid ++ [l]))) (hlen : mid.length ≤ 1)
+    (retSE : Bool) (lq s rq : Nat) (hs : 0 < s) (hs31 : s ≤ 2147483647) (hlq : 0 < lq) (hrq : 0 < rq) :
+    ∃ mods, codabarModules T contents = .ok mods ∧ cbDecodeRow T retSE (paddedRow lq s rq mods) = .error .notFound := by
+  have f := cbFacts T hT
+  obtain ⟨g', mid', l', he, hg, hl, hmid⟩ := codabarFull_spec contents _ h
+  have e1 : g' = g := by injection he with a _; exact a.symm
+  have e2 : mid' ++ [l'] = mid ++ [l] := by injection he with _ b; exact b.symm
+  have e3 : mid' = mid ∧ l' = l := by
+    have := List.append_inj' e2 rfl
+    exact ⟨this.1, by simpa using this.2⟩
+  obtain ⟨rfl, rfl⟩ := e3
+  subst e1
+  refine ⟨_, codabarModules_chars T f contents g' l' mid' h hg hl hmid, ?_⟩
+  have hcore := cbDecodeRow_core T f s hs hs31 (codabarGuardMap (toUpperByte g')) (codabarGuardMap (toUpperByte l')) mid'
+    (guard_mem _ hg) (guard_mem _ hl) hg hl
+    (fun c hc => ⟨(mid_mem c (hmid c hc)).2, midOk_not_startEnd c (hmid c hc)⟩) retSE lq rq hlq hrq
+  simp only [] at hcore
+  rw [hcore, if_pos hlen]
+
+/-- non-vacuity and tie to the writer model: "12" (guards A…A added), "B1-$D" at scale 3, and a one-character symbol -/
+example : (codabarModules refTables [49, 50]).map (fun m => (m.length, cbDecodeRow refTables false (paddedRow 1 1 1 m))) =
+    .ok (41, .ok ⟨[49, 50], 2, 84⟩) := by decide +kernel
+example : (codabarModules refTables [66, 49, 45, 36, 68]).map (fun m => (m.length, cbDecodeRow refTables false (paddedRow 2 3 1 m))) =
+    .ok (51, .ok ⟨[49, 45, 36], 4, 310⟩) := by decide +kernel
+example : (codabarModules refTables [49]).map (fun m => cbDecodeRow refTables false (paddedRow 2 3 1 m)) =
+    .ok (.error .notFound) := by decide +kernel
+/-- the white pixel in front is needed: without it the first bar is not counted -/
+example : (codabarModules refTables [49, 50]).map (fun m => cbDecodeRow refTables false (paddedRow 0 1 1 m)) =
+    .ok (.error .notFound) := by decide +kernel
 
 end Gzx.Properties.C03Row39
